@@ -16,13 +16,14 @@
    field leaves outcome and output unchanged (DESIGN's C03_counter_advisory), and C03_len_bound as a separate
    theorem (the bound check itself is part of the model and of C09_bounded_reads).  The rejection of
    single-bit changes is an instance of (A) under the no-forgery premise, not an unconditional theorem.
-   Key mode: PARTIAL — authenticity is proved for the chunk stream relative to the file key the handshake
-   yields (C03_key_chunks_authentic_partial); that handshake fields of different honest files cannot be recombined
-   (DESIGN's C03_key_authentic, needing hash-injectivity premises) is NOT proved. *)
+   Key mode: authenticity of the whole file incl. the handshake — fields and chunks of different honest files
+   cannot be recombined — is C03_key_authentic (premises: no forgery among the opens of the run, SHA-256 injective on
+   the finite list of hash inputs that occur, honest ephemeral/file keys distinct); the counter field is advisory
+   (C03_counter_advisory) and an over-long length field is rejected before it sizes a read (C03_len_bound). *)
 From Kestrel Require Import Bytes Outcome IO IOFacts Prims.
 From Kestrel.gen Require Import Extracted.
-From Kestrel.Model Require Import AeadWrap Chunks Noise NoiseSpec Files EventPreds FilesSpec ChunksSpec ChunksRobustDefs CombineDefs.
-From Kestrel.Proofs Require Import ChunksDec ChunksAuth CombineFiles CombineChunks CombineAuth CombineTamper.
+From Kestrel.Model Require Import AeadWrap Chunks Noise NoiseSpec Files EventPreds FilesSpec ChunksSpec ChunksRobustDefs CombineDefs KeyAuthDefs.
+From Kestrel.Proofs Require Import ChunksDec ChunksAuth CombineFiles CombineChunks CombineAuth CombineTamper LogIndep KeyAuth KeyAuthToy.
 Local Open Scope N_scope.
 
 (* (A) chunk layer, one honest stream.  Every offered byte string, every io state (any script, faults included), every key/aad/chunk size, every honest chunk list: if no successful open of the run is a forgery, the sink received a prefix of the honest plaintext, and Ok means it received all of it.  (kept from the earlier version) *)
@@ -378,4 +379,170 @@ Theorem C03_first_record_wrong_key :
   res = Err DChaPolyDecrypt /\ wtr s' = wtr s /\ Forall no_out_ev d /\ r_data (rdr s') = rest.
 Proof. exact (dec_first_record_wrong_key). Qed.
 Print Assumptions C03_first_record_wrong_key.
+
+(* KEY MODE, the flagship theorem: honest files F_1..F_m (any senders, recipients, ephemeral and payload keys, chunkings), GL = all AEAD seals occurring in them with their keys.  For EVERY offered byte string (the reader state s), EVERY recipient key pair (r, rpk), EVERY I/O script: if (P1) every AEAD open that succeeds in the run — the two handshake opens and every chunk open — is an entry of GL (no forgery in the run), (P2a) SHA-256 is injective on the explicit finite list of hash inputs occurring in the honest handshakes and in this run, (P2b) the honest files' ephemeral public keys and file keys are pairwise distinct, then either the run is rejected with NOTHING written, or there is ONE honest file f such that the offered bytes begin with f's 132 header bytes, rpk is the recipient f was addressed to, what was written is a prefix of f's plaintext, and Ok sender implies sender = f's sender key and the output is f's COMPLETE plaintext.  Handshake fields or chunks of different files cannot be combined. *)
+Theorem C03_key_authentic :
+  forall P : prims,
+  aead_ok P ->
+  hash_ok P ->
+  forall (files : list hfile) (r rpk : bytes) (s : io) (res : outcome derr bytes) (s' : io),
+  key_decrypt P r rpk s = (res, s') ->
+  hs_opens_honest P files r rpk (offered_msg (r_data (rdr s))) ->
+  run_opens_honest P files s s' ->
+  hash_inj_on P (hash_inputs P files rpk (offered_msg (r_data (rdr s)))) ->
+  keys_distinct P files ->
+  rejected_no_output s s' res \/ (exists f : hfile, In f files /\ attributed_to P f rpk s s' res).
+Proof. exact (key_auth_multi). Qed.
+Print Assumptions C03_key_authentic.
+
+(* the same with the distinctness premise weakened to the two consistency facts actually used *)
+Theorem C03_key_authentic_weakest_premises :
+  forall P : prims,
+  aead_ok P ->
+  hash_ok P ->
+  forall (files : list hfile) (r rpk : bytes) (s : io) (res : outcome derr bytes) (s' : io),
+  key_decrypt P r rpk s = (res, s') ->
+  hs_opens_honest P files r rpk (offered_msg (r_data (rdr s))) ->
+  run_opens_honest P files s s' ->
+  hash_inj_on P (hash_inputs P files rpk (offered_msg (r_data (rdr s)))) ->
+  eph_consistent P files ->
+  fk_consistent P files ->
+  rejected_no_output s s' res \/ (exists f : hfile, In f files /\ attributed_to P f rpk s s' res).
+Proof. exact (key_auth_multi_gen). Qed.
+Print Assumptions C03_key_authentic_weakest_premises.
+
+(* one honest file, no distinctness premise at all: bit flips in the handshake, a wrong recipient, a swapped sender field are rejected unless an AEAD forgery or a hash collision on the occurring values happened *)
+Theorem C03_key_authentic_single :
+  forall P : prims,
+  aead_ok P ->
+  hash_ok P ->
+  forall (f : hfile) (r rpk : bytes) (s : io) (res : outcome derr bytes) (s' : io),
+  key_decrypt P r rpk s = (res, s') ->
+  hs_opens_honest P [f] r rpk (offered_msg (r_data (rdr s))) ->
+  run_opens_honest P [f] s s' ->
+  hash_inj_on P (hash_inputs P [f] rpk (offered_msg (r_data (rdr s)))) ->
+  rejected_no_output s s' res \/ attributed_to P f rpk s s' res.
+Proof. exact (key_auth_single). Qed.
+Print Assumptions C03_key_authentic_single.
+
+(* the Ok case spelled out: header equal to one honest file's, recipient as addressed, sender as in that file, output = its complete plaintext *)
+Theorem C03_key_authentic_ok :
+  forall P : prims,
+  aead_ok P ->
+  hash_ok P ->
+  forall (files : list hfile) (r rpk : bytes) (s : io) (sender : bytes) (s' : io),
+  key_decrypt P r rpk s = (Ok sender, s') ->
+  hs_opens_honest P files r rpk (offered_msg (r_data (rdr s))) ->
+  run_opens_honest P files s s' ->
+  hash_inj_on P (hash_inputs P files rpk (offered_msg (r_data (rdr s)))) ->
+  keys_distinct P files ->
+  exists f : hfile,
+    In f files /\
+    firstn 132 (r_data (rdr s)) = firstn 132 (hf_file P f) /\
+    rpk = hf_R f /\ sender = hf_spk P f /\ w_out (wtr s') = w_out (wtr s) ++ concat (hf_chunks f).
+Proof. exact (key_auth_multi_ok). Qed.
+Print Assumptions C03_key_authentic_ok.
+
+(* a 128-byte handshake that is not the handshake of one of the honest files is rejected with nothing written *)
+Theorem C03_header_of_one_file :
+  forall P : prims,
+  aead_ok P ->
+  hash_ok P ->
+  forall (files : list hfile) (r rpk : bytes) (s : io) (res : outcome derr bytes) (s' : io),
+  key_decrypt P r rpk s = (res, s') ->
+  hs_opens_honest P files r rpk (offered_msg (r_data (rdr s))) ->
+  run_opens_honest P files s s' ->
+  hash_inj_on P (hash_inputs P files rpk (offered_msg (r_data (rdr s)))) ->
+  keys_distinct P files ->
+  (forall f : hfile, In f files -> offered_msg (r_data (rdr s)) <> hf_msg P f) ->
+  rejected_no_output s s' res.
+Proof. exact (C03_header_of_one_file). Qed.
+Print Assumptions C03_header_of_one_file.
+
+(* taking the ephemeral key of honest file a together with a static-key field or payload field that is not a's own (e.g. from another honest file) is rejected with nothing written *)
+Theorem C03_handshake_fields_not_recombinable :
+  forall P : prims,
+  aead_ok P ->
+  hash_ok P ->
+  forall (files : list hfile) (a : hfile) (c1 c2 : list N) (r rpk : bytes) (s : io)
+    (res : outcome derr bytes) (s' : io),
+  key_decrypt P r rpk s = (res, s') ->
+  hs_opens_honest P files r rpk (offered_msg (r_data (rdr s))) ->
+  run_opens_honest P files s s' ->
+  hash_inj_on P (hash_inputs P files rpk (offered_msg (r_data (rdr s)))) ->
+  keys_distinct P files ->
+  In a files ->
+  offered_msg (r_data (rdr s)) = hf_epk P a ++ c1 ++ c2 ->
+  length c1 = 48%nat -> c1 <> hf_c1 P a \/ c2 <> hf_c2 P a -> rejected_no_output s s' res.
+Proof. exact (C03_handshake_fields_not_recombinable). Qed.
+Print Assumptions C03_handshake_fields_not_recombinable.
+
+(* the exception the property names: overwriting the 8-byte counter fields of any records with arbitrary bytes leaves outcome and output unchanged (the decryptor never reads them; the position-derived nonce is what is authenticated) *)
+Theorem C03_counter_advisory :
+  forall (P : prims) (key aad : bytes) (cs : N),
+  length key = 32%nat ->
+  aead_ok P ->
+  cs < 4294967296 ->
+  forall (chunks ctrs : list bytes) (sh st : io),
+  chunks <> [] ->
+  Forall (chunk_ok cs) chunks ->
+  length ctrs = length chunks ->
+  Forall (fun ctr : bytes => length ctr = 8%nat) ctrs ->
+  reader_ok (rdr sh) ->
+  writer_ok (wtr sh) ->
+  reader_ok (rdr st) ->
+  writer_ok (wtr st) ->
+  r_data (rdr sh) = spec_chunks P key aad chunks ->
+  r_data (rdr st) = spec_ctr_from P key aad 0 (combine ctrs chunks) ->
+  w_out (wtr st) = w_out (wtr sh) ->
+  exists sh' st' : io,
+    decrypt_chunks P key aad cs sh = (Ok tt, sh') /\
+    decrypt_chunks P key aad cs st = (Ok tt, st') /\
+    w_out (wtr st') = w_out (wtr sh') /\ w_out (wtr sh') = w_out (wtr sh) ++ concat chunks.
+Proof. exact (C03_counter_advisory_vs_honest). Qed.
+Print Assumptions C03_counter_advisory.
+
+(* a record whose length field exceeds the chunk size yields Err ChunkLen (or a read error) with nothing written, and the only reads made request at most 16 bytes: the attacker-chosen length never sizes a read — every script *)
+Theorem C03_len_bound :
+  forall (P : prims) (key aad : bytes) (cs : N) (hdr rest : list N) (s : io) 
+    (res : outcome derr unit) (s' : io),
+  length hdr = 16%nat ->
+  cs < de32 (hdr_len hdr) ->
+  r_data (rdr s) = hdr ++ rest ->
+  decrypt_chunks P key aad cs s = (res, s') ->
+  (res = Err DChunkLen \/ (exists e : ioerr, res = Err (DIORead e))) /\
+  w_out (wtr s') = w_out (wtr s) /\
+  (exists d : list event, log s' = d ++ log s /\ Forall is_read_ev d /\ Forall (read_req_le 16) d).
+Proof. exact (C03_len_bound). Qed.
+Print Assumptions C03_len_bound.
+
+(* non-vacuity: a concrete honest two-chunk file (RFC SHA-256/HMAC/HKDF/ChaCha20-Poly1305, toy DH) read by its recipient satisfies ALL premises and is accepted with the complete plaintext *)
+Theorem C03_key_authentic_nonvacuous_accept :
+  exists (sender : bytes) (s' : io),
+    key_decrypt KeyAuthToy.PT KeyAuthToy.toy_r KeyAuthToy.toy_R KeyAuthToy.toy_s1 = (Ok sender, s') /\
+    hs_opens_honest KeyAuthToy.PT [KeyAuthToy.toy_f1] KeyAuthToy.toy_r KeyAuthToy.toy_R
+      (offered_msg (r_data (rdr KeyAuthToy.toy_s1))) /\
+    run_opens_honest KeyAuthToy.PT [KeyAuthToy.toy_f1] KeyAuthToy.toy_s1 s' /\
+    hash_inj_on KeyAuthToy.PT
+      (hash_inputs KeyAuthToy.PT [KeyAuthToy.toy_f1] KeyAuthToy.toy_R
+         (offered_msg (r_data (rdr KeyAuthToy.toy_s1)))) /\
+    sender = hf_spk KeyAuthToy.PT KeyAuthToy.toy_f1 /\
+    w_out (wtr s') = concat (hf_chunks KeyAuthToy.toy_f1).
+Proof. exact (key_auth_single_nonvacuous). Qed.
+Print Assumptions C03_key_authentic_nonvacuous_accept.
+
+(* non-vacuity: two concrete honest files; the offered bytes take e from file 1 and the other fields and chunks from file 2: ALL premises hold and the result is a rejection with empty output *)
+Theorem C03_key_authentic_nonvacuous_splice :
+  exists s' : io,
+    key_decrypt KeyAuthToy.PT KeyAuthToy.toy_r KeyAuthToy.toy_R KeyAuthToy.toy_s2 =
+    (Err (DOtherNoise NDecrypt), s') /\
+    hs_opens_honest KeyAuthToy.PT [KeyAuthToy.toy_f1; KeyAuthToy.toy_f2] KeyAuthToy.toy_r
+      KeyAuthToy.toy_R (offered_msg (r_data (rdr KeyAuthToy.toy_s2))) /\
+    run_opens_honest KeyAuthToy.PT [KeyAuthToy.toy_f1; KeyAuthToy.toy_f2] KeyAuthToy.toy_s2 s' /\
+    hash_inj_on KeyAuthToy.PT
+      (hash_inputs KeyAuthToy.PT [KeyAuthToy.toy_f1; KeyAuthToy.toy_f2] KeyAuthToy.toy_R
+         (offered_msg (r_data (rdr KeyAuthToy.toy_s2)))) /\
+    keys_distinct KeyAuthToy.PT [KeyAuthToy.toy_f1; KeyAuthToy.toy_f2] /\ w_out (wtr s') = [].
+Proof. exact (key_auth_multi_splice_rejected). Qed.
+Print Assumptions C03_key_authentic_nonvacuous_splice.
 
